@@ -48,7 +48,8 @@ var glPool = []string{"a.js", "z.js", "m.txt", "src/a.js", "src/b.txt", "src/dee
 	"-pre.js", "0.js", "lib/x.js", "src/deep/more/d.js", "lib/.keep", ".z.txt"}
 var glDirs = []string{"empty", "src/emptydir", ".hiddenempty"}
 var glPatterns = []string{"*.js", "**/*.js", "src/*", "*/*", "**", "src/**", "src/**/*.js", "{src,lib}/*.js", "*.{js,txt}", "src/*.js", "**/c.js",
-	"src/deep/*", "lib/**", "*", "**/*", "s*/*.js", "src/**/d.js", "**/*.txt", "*/deep/*.js", "**/deep/**", "lib/*", "**/.h.js"}
+	"src/deep/*", "lib/**", "*", "**/*", "s*/*.js", "src/**/d.js", "**/*.txt", "*/deep/*.js", "**/deep/**", "lib/*", "**/.h.js",
+	"./*.js", "./src/*.js", "./**/*.txt", "src/./*.js"}
 
 func (globScen) Gen(r *Rng, cfg GenConfig) any {
 	c := &GlobCase{}
